@@ -724,7 +724,8 @@ fn filter_not(input: Span) -> IResult<Span, Option<Search>> {
     tag("NOT")
         .precedes(multispace1)
         .precedes(low_filter)
-        .map(|optk| optk.map(|k| Search::Not(Box::new(k))))
+        // an empty keyword (`*`) stands for every line: its negation selects nothing
+        .map(|optk| Some(Search::Not(Box::new(optk.unwrap_or(Search::And(vec![]))))))
         .parse(input)
 }
 
@@ -800,7 +801,14 @@ fn mid_filter(input: Span) -> IResult<Span, Option<Search>> {
 
 fn high_filter(input: Span) -> IResult<Span, Option<Search>> {
     separated_list1(tag("OR").delimited_by(multispace1), mid_filter)
-        .map(|operands| filter_chain(Search::Or, operands))
+        .map(|operands| {
+            // an empty keyword (`*`) stands for every line, and so does an OR with it
+            if operands.iter().any(|o| o.is_none()) {
+                None
+            } else {
+                filter_chain(Search::Or, operands)
+            }
+        })
         .parse(input)
 }
 
